@@ -124,6 +124,7 @@ Next ==
           [] e.k = "sched" -> st' = [st EXCEPT !.sched = Append(st.sched, <<e.when, e.id>>)] /\ v' = v
           [] e.k = "sigint" -> st' = [st EXCEPT !.sigs = st.sigs + 1] /\ v' = v
           [] e.k = "tick" -> st' = [st EXCEPT !.ticksInReq = IF st.open THEN st.ticksInReq + 1 ELSE 0] /\ v' = v
+          [] e.k = "reenter" -> st' = st /\ v' = v      \* the context was left and the same object entered again: nothing queued is lost
           [] e.k = "stalled" -> st' = [st EXCEPT !.stalled = TRUE] /\ v' = v       \* the thread was descheduled: time passed without the code blocking
           [] e.k = "req" ->
                /\ st' = [st EXCEPT !.open = TRUE, !.T = e.T, !.t0 = e.t0, !.deliverable = Deliverable(st, e.t0),
